@@ -139,6 +139,10 @@ def av_riscv_ble(arch, ci, inst):
     return arch in ("riscv", "riscv:rvc") and ci.mnemonic == "bge"
 
 
+def av_thumb_asr(arch, ci, inst):
+    return arch == "arm:thumb" and ci.mnemonic == "lsr" and ci.cls.__name__ == "lsr_ins"
+
+
 def av_avr_subi(arch, ci, inst):
     return arch == "avr" and ci.mnemonic == "sbci"
 
@@ -176,6 +180,7 @@ AVOID = {
     "syntax-elements-glued": av_glued,
     "arm-reglist-printed-without-braces": av_arm_reglist,
     "riscv-ble-prints-bge": av_riscv_ble,
+    "thumb-asr-prints-lsr": av_thumb_asr,
     "avr-subi-prints-sbci": av_avr_subi,
     "xtensa-callx0-prints-call0": av_xtensa_callx0,
     "microblaze-sibling-mnemonics": av_microblaze_dup,
@@ -409,8 +414,7 @@ def _rt(archname, obj_fn):
     except BaseException as e:
         return "%s: `%s` does not assemble (%s)" % (archname, text, type(e).__name__)
     if a != d:
-        return "%s: `%s` assembles to %s %s, direct encoding is %s %s" % (
-            archname, text, a["sections"], a["relocs"], d["sections"], d["relocs"])
+        return "%s: `%s` assembles to %s, direct encoding is %s" % (archname, text, _short(a), _short(d))
     return None
 
 
@@ -433,6 +437,10 @@ def probe_arm_reglist():
     return _rt("arm", lambda a: _cls(a, "Push")(RegisterSet([R4, R5])))
 
 
+def _short(o):
+    return "+".join(x[1] for x in o["sections"]) + ("".join(" %s(%s)" % (r[0], r[1]) for r in o["relocs"]))
+
+
 def _twins(archname, fn_a, fn_b):
     """Two different instances print the same text but encode differently: at most one can round-trip."""
     from vlib import isaenum
@@ -446,9 +454,8 @@ def _twins(archname, fn_a, fn_b):
             got = asm_observation(ta, arch)
         except BaseException as e:
             got = "no parse (%s)" % type(e).__name__
-        return "%s: %s and %s both print `%s` but encode as %s %s and %s %s; asm gives %s" % (
-            archname, type(a).__name__, type(b).__name__, ta, da["sections"], da["relocs"], db["sections"],
-            db["relocs"], got if isinstance(got, str) else (got["sections"], got["relocs"]))
+        return "%s: two instances print `%s` but encode as %s and %s; asm gives %s" % (
+            archname, ta, _short(da), _short(db), got if isinstance(got, str) else _short(got))
     return None
 
 
@@ -457,6 +464,13 @@ def probe_riscv_ble():
     from ppci.arch.riscv.instructions import Ble, Bge
 
     return _twins("riscv", lambda a: Ble(R5, R6, "lab1"), lambda a: Bge(R5, R6, "lab1"))
+
+
+def probe_thumb_asr():
+    from ppci.arch.arm.thumb_instructions import Asr, Lsr
+    from ppci.arch.arm.registers import R1, R2
+
+    return _twins("arm:thumb", lambda a: Asr(R1, R2), lambda a: Lsr(R1, R2))
 
 
 def probe_avr_subi():
@@ -527,6 +541,7 @@ PROBES = {
     "syntax-elements-glued": probe_glued,
     "arm-reglist-printed-without-braces": probe_arm_reglist,
     "riscv-ble-prints-bge": probe_riscv_ble,
+    "thumb-asr-prints-lsr": probe_thumb_asr,
     "avr-subi-prints-sbci": probe_avr_subi,
     "xtensa-callx0-prints-call0": probe_xtensa_callx0,
     "microblaze-sibling-mnemonics": probe_microblaze_dup,
